@@ -67,7 +67,34 @@ def capacities(F, R):
                             'B.C08.capacity', '%s.%s' % (b.path.split('::')[-2], fld),
                             '%s creates the %s storage as %s, not with %s: the limit of one kind would apply to another' % (b.path, fld, d[:90], cap),
                             detail={'storage': fld, 'capacity': cap}, where=b.where(bb))
-    R.floor('B.C08.capacity', n, 4)
+    # ... and at the manager level: each kind of resource is given the capacity of its own kind
+    cr = F.body('backend::resources::create_resources')
+    if R.check(cr is not None, 'B.C08.capacity', 'anchor:create_resources', 'create_resources not found'):
+        want = {'backend::resources::clocks::Clocks::new': ['clock_capacity'], 'backend::resources::modulators::Modulators::new': ['modulator_capacity'],
+                'backend::resources::listeners::Listeners::new': ['listener_capacity'],
+                'backend::resources::mixer::Mixer::new': ['sub_track_capacity', 'send_track_capacity']}
+        caps = ('clock_capacity', 'modulator_capacity', 'listener_capacity', 'sub_track_capacity', 'send_track_capacity', 'sound_capacity')
+        for bb, t in cr.calls():
+            cp = callee_path(t) or ''
+            if cp in want:
+                for i, cap in enumerate(want[cp]):
+                    n += 1
+                    d = describe(cr, t['args'][i], depth=4, at=bb)
+                    R.check(cap in d and not any(c2 in d for c2 in caps if c2 != cap), 'B.C08.capacity', '%s#%d' % (cp.split('::')[-2], i),
+                            'create_resources builds %s with %s instead of capacities.%s: the limit of one kind applies to another' % (cp.split('::')[-2], d[:60], cap),
+                            detail={'constructor': cp, 'capacity': cap}, where=cr.where(bb))
+    mn = F.body('backend::resources::mixer::Mixer::new')
+    if R.check(mn is not None, 'B.C08.capacity', 'anchor:Mixer::new', 'Mixer::new not found'):
+        names = [mn.names.get(i, '') for i in range(1, mn.arg_count + 1)]
+        for bb, si, s in mn.stmts():
+            if s['k'] == 'assign' and s['rv']['k'] == 'agg' and s['rv'].get('adt') == 'backend::resources::mixer::Mixer':
+                for fld, cap in (('sub_tracks', 'sub_track_capacity'), ('send_tracks', 'send_track_capacity')):
+                    if fld in s['rv']['fields']:
+                        n += 1
+                        d = describe(mn, s['rv']['ops'][s['rv']['fields'].index(fld)], depth=8, at=bb)
+                        R.check(cap in d and not any(c2 in d for c2 in ('sub_track_capacity', 'send_track_capacity') if c2 != cap), 'B.C08.capacity', 'Mixer.' + fld,
+                                'Mixer::new creates %s as %s, not with %s' % (fld, d[:80], cap), detail={'storage': fld, 'capacity': cap})
+    R.floor('B.C08.capacity', n, 9)
 
 
 def play_inserts(F, R):
